@@ -12,22 +12,49 @@ CFG = dict(
           "filesystem step done, at least one to go) that follows a committed Write, and the recovering Write succeeded. Distinct by "
           "(full history, crash point). Exhaustive sweeps: all histories of 1..2 (thorough 1..3) Writes over subsets of {a,b} x both "
           "base states x all crash points x all recovery sequences of 1 (thorough 1..2) Writes over the same subsets; and all those "
-          "1..2-Write histories x all crash points x all second crash points of the recovering Write.",
+          "1..2-Write histories x all crash points x all second crash points of the recovering Write. "
+          "ERROR-RETURN FAULTS (sections FaultHistories, FaultSweep): the same kind of history (1..4 Writes of one Dir, existing or missing "
+          "base) x EVERY (write index x hook point but the last x applicable fault kind): at the hook point the handler does not panic "
+          "but sabotages the filesystem so that the step(s) that follow RETURN AN ERROR for real, Write runs its own error path, and the "
+          "sabotage is undone after Write returned (or, variant 'kept', only after the next Write of the same Dir returned too). Fault "
+          "kinds: base-dir-unmodifiable (immutable inode flag - chmod 0555 when not root - on the base directory, or on its deepest "
+          "existing ancestor while it is missing: mkdir base / mkdir version / symlink / rename / rmdir of the previous version fail with "
+          "EPERM; at every point); step-dir-unmodifiable (the in-flight version directory, armed between its mkdir and the symlink: file "
+          "writes fail; or every old version directory, armed at after-rename / before-remove-prev: the removal of the previous version "
+          "fails AFTER the target was switched); path-component-is-a-file (missing base, first Write: ENOTDIR from the mkdir of the base). "
+          "Afterwards, fault removed: optionally the same Dir writes once more, then a fresh Dir writes 1..2 sets. Non-trivial fault run: "
+          "the injected fault made a Write that follows a committed Write return an error, and all later Writes succeeded. Distinct by "
+          "(history, fault point, kind, variant). FaultSweep is exhaustive over: histories of 1..2 (thorough 1..3) Writes over subsets of "
+          "{a,b} x both base states x all fault points x all applicable kinds x {removed at once, kept during the next Write} x {same Dir "
+          "first, fresh Dir first} x later Writes {a,b} or {} then {b}.",
      technique="crash-point enumeration: property-based histories (rapid) x exhaustive enumeration of the crash points of each history, "
-               "with a reader-side state invariant checked at every intermediate filesystem state; exhaustive small-scope sweeps",
+               "with a reader-side state invariant checked at every intermediate filesystem state; exhaustive small-scope sweeps; "
+               "error-return fault enumeration: every hook point x fault kind, the fault injected for real into the scratch file system "
+               "(immutable inode flag / ENOTDIR) from the hook handler",
      level_text="Fault enumeration: for every generated history every crash point between two filesystem steps of Write is injected "
                 "once (complete for that dimension; `exhaustive` is claimed only for the small-scope sweep sections, whose history "
                 "space is enumerated completely as well). Oracle at every hook point: target absent (only before the first commit) or "
                 "a directory whose listing and contents are exactly the last committed Write's set, or the in-flight one once its "
                 "rename happened; after a crash a fresh Dir must Write without error and the target must show its set; without "
-                "crashes the base directory holds exactly the target link and the version directory it points to after each Write.",
+                "crashes the base directory holds exactly the target link and the version directory it points to after each Write. "
+                "Error returns: for every generated history every (hook point x fault kind) is injected once. Oracle: whatever Write "
+                "returns, at every hook point, when it has returned and after the fault was removed the target is absent (only before "
+                "the first commit) or shows exactly the last committed set - the in-flight one once its rename happened; a Write may "
+                "return an error only while a fault is in force; a Write that returns nil has switched the target to its set; with the "
+                "fault removed the same Dir and a fresh Dir Write without error and the target shows their sets. Nothing is asserted "
+                "about WHICH error is returned nor about version directories left behind by a failed Write.",
      level_note="A crash is modelled at the granularity of Go-level filesystem calls (os.MkdirAll, os.WriteFile, os.Symlink, os.Rename, "
                 "os.RemoveAll are not split further) and as a process death, not a power loss: what the kernel has accepted is "
                 "visible afterwards (no lost or reordered page-cache writes; dir.Write never calls fsync, so durability across a "
                 "machine crash is outside this check). The order in which Write walks its file map is the Go runtime's. Real time: "
-                "version directories are named by UnixNano and the harness waits for the clock to advance between Writes.",
+                "version directories are named by UnixNano and the harness waits for the clock to advance between Writes. "
+                "Error returns are injected at directory granularity (a whole directory becomes unmodifiable, so all steps that modify "
+                "it fail until the fault is removed - not a single failing system call, no EIO/ENOSPC, no short write of a file); the "
+                "scratch location is /dev/shm (tmpfs) and, for a share of the cases, $TMPDIR on disk - both accept the immutable flag "
+                "here (probed at start; class counters scratch:<path>); if no location accepts it the run is inconclusive, not OK.",
      assumptions=["the scratch file system (os.TempDir) implements POSIX rename/symlink atomicity",
                   "process death loses only in-memory state (Dir.prev); completed system calls persist in order",
                   "time.Now() advances between two Writes of one case (enforced by the harness)",
+                  "a directory with the immutable inode flag (root) or mode 0555 (not root) rejects mkdir/create/symlink/rename/unlink in it and stays readable (probed at start)",
                   "Go runtime and rapid v1.3.0 are correct"],
      timeout_quick=300, timeout_thorough=2400)
